@@ -19,9 +19,10 @@ ALPHA = {
     'ascii': 'ab \x00\n',
     'latin': 'a\xe9\xff\xf1\x80\x00',
     'bmp': 'a\u20ac\u4e2d\u0301\u200d\ufffd\ud7ff\ue000',
+    'bomlike': 'ab\ufeff\ufffe\u00ff\u00fe',          # ZERO WIDTH NO-BREAK SPACE / noncharacter FFFE: look like byte-order marks mid-text
     'astral': 'a\U0001f600\U0001d11e\U0010ffff\u0301\xe9\U00010000',
 }
-SMALL_STRS = ['', 'a', '\xe9', '\u20ac', '\U0001f600', 'e\u0301', '\x00', 'ab']
+SMALL_STRS = ['', 'a', '\xe9', '\u20ac', '\U0001f600', 'e\u0301', '\x00', 'ab', '\ufeff']
 
 
 def char_boundaries(text, encoding, blob):
